@@ -28,6 +28,7 @@ import (
 const maxFieldIndex = 1000000
 
 type eager struct {
+	inMode string // "", "csv", "tsv": input mode (fields = RFC 4180 parse of the record)
 	line   string
 	fields []string
 	fs     string
@@ -51,6 +52,17 @@ func hasOddSpace(s string) bool {
 
 // split per the property; ok=false: the property text does not determine the result.
 func (e *eager) split(line string) ([]string, bool) {
+	if e.inMode != "" {
+		// CSV/TSV input: the fields are the RFC 4180 reading of the record text; FS plays no part
+		if line == "" || strings.ContainsAny(line, "\r") {
+			return nil, false
+		}
+		sep := byte(',')
+		if e.inMode == "tsv" {
+			sep = '\t'
+		}
+		return rfc4180(line, sep)
+	}
 	switch {
 	case e.fs == " ":
 		if hasOddSpace(line) {
@@ -186,7 +198,7 @@ func truncIndex(f float64) (int64, bool) {
 }
 
 // oracleEligible: histories with RS="" are outside the property text (extra newline rule).
-func oracleEligible(h *history) bool { return !h.RSEmpty }
+func oracleEligible(h *history) bool { return !h.RSEmpty || h.InMode != "" }
 
 func fail(what string, got, want string) *vh.Failure {
 	return &vh.Failure{Kind: "oracle", What: what, Got: got, Want: want}
@@ -203,7 +215,7 @@ func oracleCheck(h *history, toks []tok) *vh.Failure {
 }
 
 func oracleWalk(h *history, toks []tok, known **vh.Failure) *vh.Failure {
-	e := &eager{fs: " ", ofs: " "}
+	e := &eager{fs: " ", ofs: " ", inMode: h.InMode}
 	pos := 0
 	next := func() (tok, bool) {
 		if pos >= len(toks) {
@@ -289,6 +301,84 @@ func oracleWalk(h *history, toks []tok, known **vh.Failure) *vh.Failure {
 				}
 			} else if want := getField(idx); string(t.Bytes) != want {
 				return fail(fmt.Sprintf("op %d: $(%s) has the wrong value", opi, o.Idx.Awk), fmt.Sprintf("%q", t.Bytes), fmt.Sprintf("%q", want))
+			}
+		case "getlinevar", "getlinefile":
+			// a record read into a variable: the current record, its fields and NF are untouched
+			t, ok := next()
+			if !ok || t.K != "g" || t.Int != "1" {
+				return unexpected(opi, o, t, ok)
+			}
+		case "operand":
+			in := o.Inner
+			t, ok := next()
+			rejected, wantErr := false, ""
+			var apply func()
+			switch in.Kind {
+			case "setnfstr":
+				f := in.Idx.F()
+				switch {
+				case math.IsNaN(f) || math.IsInf(f, 0):
+					return nil
+				case math.Trunc(f) < 0:
+					rejected, wantErr = true, "nfNegative"
+				case math.Trunc(f) > maxFieldIndex:
+					rejected, wantErr = true, "nfTooLarge"
+				default:
+					n := int64(math.Trunc(f))
+					apply = func() {
+						for int64(len(e.fields)) < n {
+							e.fields = append(e.fields, "")
+						}
+						e.fields = e.fields[:n]
+						rebuild()
+						e.nfStrLive, e.nfStr, e.nfStrFrac = true, string(in.val()), f != math.Trunc(f)
+					}
+				}
+			case "fs":
+				if utf8.RuneCountInString(string(in.val())) > 1 {
+					if _, err := regexp.Compile(string(in.val())); err != nil {
+						rejected, wantErr = true, "badRegex"
+					}
+				}
+				apply = func() { e.fs = string(in.val()) }
+			case "ofs":
+				apply = func() { e.ofs = string(in.val()) }
+			case "mode":
+				on, sep, valid := csvSepOfMode(in.Mode)
+				if !valid {
+					return nil // an unknown mode text: not this property's business
+				}
+				apply = func() { e.csvOn, e.csvSep = on, sep }
+			}
+			if rejected {
+				// the record must be exactly as before; the run only survives when getline reports the rejection as -1
+				if o.Route == "m" {
+					if !ok || t.K != "e" || (t.Err != wantErr && !(wantErr == "nfTooLarge" && t.Err == "nfNegative")) {
+						return fail(fmt.Sprintf("op %d: operand %s must be rejected with an error", opi, operandText(in)), showToks([]tok{t}), "e:"+wantErr)
+					}
+					return nil
+				}
+				if !ok || t.K != "g" || t.Int != "-1" {
+					return fail(fmt.Sprintf("op %d: getline reaching the rejected operand %s must return -1", opi, operandText(in)), showToks([]tok{t}), "g:-1")
+				}
+				break
+			}
+			if o.Route == "m" {
+				if !ok || t.K != "_" {
+					return unexpected(opi, o, t, ok)
+				}
+			} else if !ok || t.K != "g" || t.Int != "1" {
+				return unexpected(opi, o, t, ok)
+			}
+			apply()
+			if o.Route != "v" {
+				fl, det := e.split(string(o.rec()))
+				if !det {
+					return nil
+				}
+				e.line, e.fields = string(o.rec()), fl
+				pendingLine = false
+				e.nfStrLive = false
 			}
 		case "nfincr":
 			if e.nfStrLive && e.nfStrFrac {
